@@ -40,8 +40,8 @@ func norm(s string) string {
 var (
 	twoTick    = regexp.MustCompile("^[^`]*`([^`]*)`[^`]*`([^`]*)`[^`]*$")
 	oneTick    = regexp.MustCompile("^[^`]*`([^`]*)`[^`]*$")
-	couldSimp  = regexp.MustCompile(`^could simplify (.*) to (.*)$`)
-	canBe      = regexp.MustCompile(`^(.*) can be (.*)$`)
+	couldSimp  = regexp.MustCompile(`(?s)^could simplify (.*) to (.*)$`)
+	canBe      = regexp.MustCompile(`(?s)^(.*) can be (.*)$`)
 	yodaRE     = regexp.MustCompile(`^consider to change order in expression to (.*)$`)
 	quoteRepl  = regexp.MustCompile(`^replace '(.*)' with '(.*)'$`)
 	suggestion = regexp.MustCompile(`^suggestion: (.*)$`)
@@ -53,7 +53,16 @@ var (
 // Segments extracts (original, replacement) code segments from a message; original may
 // be empty when the message only quotes the replacement.
 func Segments(text string) (orig, repl string, ok bool) {
-	text = strings.SplitN(text, "\n", 2)[0]
+	// quoted code may span several lines (a struct type, a function literal): the whole text first
+	if strings.Contains(text, "\n") {
+		if o, r, ok := segments1(text); ok {
+			return o, r, true
+		}
+	}
+	return segments1(strings.SplitN(text, "\n", 2)[0])
+}
+
+func segments1(text string) (orig, repl string, ok bool) {
 	switch {
 	case twoTick.MatchString(text):
 		m := twoTick.FindStringSubmatch(text)
